@@ -146,7 +146,7 @@ class ContainerMixin:
             lo = z3.simplify(norm(lower, z3.IntVal(0)))
             hi = z3.simplify(norm(upper, n))
             new_n = z3.simplify(z3.If(hi > lo, hi - lo, 0))
-            return SeqV(base.arr, new_n, base.et, z3.simplify(lo + base.off))
+            return SeqV(base.arr, new_n, base.et, z3.simplify(lo + base.off), base.fn)
         if isinstance(base, StrV):
             if base.s is not None:
                 lo = conc_int(lower) if lower is not None and not isinstance(lower, NoneV) else None
@@ -288,9 +288,8 @@ class ContainerMixin:
         et = a.et if isinstance(a, SeqV) else b.et
         sa = a if isinstance(a, SeqV) else self.seq_from_list(a.items, et)
         sb = b if isinstance(b, SeqV) else self.seq_from_list(b.items, et)
-        j = z3.Int(self.ctx.fresh_name("cc"))
-        arr = z3.Lambda([j], z3.If(j < sa.n, sa.sel(j), sb.sel(j - sa.n)))
-        return SeqV(arr, z3.simplify(sa.n + sb.n), et)
+        return SeqV(None, z3.simplify(sa.n + sb.n), et,
+                    fn=lambda j, sa=sa.clone(), sb=sb.clone(): z3.If(j < sa.n, sa.sel(j), sb.sel(z3.simplify(j - sa.n))))
 
     def seq_append(self, target: SeqV, value: V) -> None:
         target.put(target.n, self.pack(value, target.et))
